@@ -72,10 +72,11 @@ def run(eng, R):
                 ["_c = self(*_a)", "return _c - self._cost_function_handle(*_a)"], ["_c = self(*_a)", "_s = self._cost_function_handle(*_a)", "return _c - _s"]]
         R.ob("H-gof", "CostFunction.goodness_of_fit:difference", common.like_any(src, *DIFF), (f.file, f.lineno), "goodness_of_fit must return cost - saturated cost")
         IDX = ["_id = self._arg_names.index(self._DATA_NAME)", "_im = self._arg_names.index(self._MODEL_NAME)"]
-        SAT = [IDX + ["_b[_im] = _b[_id]", "self._cost_function_handle(*_b)"]]
+        IDX2 = ["_ix = (self._arg_names.index(self._DATA_NAME), self._arg_names.index(self._MODEL_NAME))", "_id, _im = _ix"]   # (both looked up in one go)
+        SAT = [IDX + ["_b[_im] = _b[_id]", "self._cost_function_handle(*_b)"], IDX2 + ["_b[_im] = _b[_id]", "self._cost_function_handle(*_b)"]]
         R.ob("H-gof", "CostFunction.goodness_of_fit:saturated", common.like_any(src, *SAT), (f.file, f.lineno),
              "the saturated cost must be the cost handle evaluated with the model argument replaced by the data")
-        R.ob("H-gof", "CostFunction.goodness_of_fit:indices", common.like_any(src, IDX), (f.file, f.lineno), "data/model positions must be looked up by the cost function's own data/model names")
+        R.ob("H-gof", "CostFunction.goodness_of_fit:indices", common.like_any(src, IDX, IDX2), (f.file, f.lineno), "data/model positions must be looked up by the cost function's own data/model names")
         s0 = common.Src(str(src))
         R.ob("H-gof", "CostFunction.goodness_of_fit:cost", s0.like("_c = self(*_a)"), (f.file, f.lineno), "the cost term of the gof must be the full cost (constraints included)")
         ok = common.zeroed_determinant(eng.cnode(f))
@@ -138,7 +139,7 @@ def run(eng, R):
         R.ob("F4", "MultiCostFunction.cost_sum", ast.unparse(cs.node.body[-1]).replace(" ", "") in ("returnnp.sum(single_costs)", "returnsum(single_costs)"), (cs.file, cs.lineno), "the multi-fit cost must be the plain sum of the member costs")
         mc = get_func(p, "MultiFit", "chi2_probability")
         src = ast.unparse(mc.node)
-        R.ob("F4", "MultiFit.chi2_probability:members", "for _fit in self._fits" in src and "_fit._nexus.get('total_cov_mat_log_determinant')" in src, (mc.file, mc.lineno),
+        R.ob("F4", "MultiFit.chi2_probability:members", common.Src(" ".join(src.split())).like("for _m in self._fits:") and common.Src(" ".join(src.split())).all_like("for _m in self._fits:", "_m._nexus.get('total_cov_mat_log_determinant')"), (mc.file, mc.lineno),
              "MultiFit.chi2_probability must subtract each member's own determinant term")
 
 def _defs(f, expr):
